@@ -293,6 +293,21 @@ pub fn check_signature(m: &Msg, issued: &BTreeMap<String, String>) -> SigCheck {
             return SigCheck::Valid { guid, order };
         }
     }
+    // is it the MAC of this very request under *another* key the host has issued?
+    if let Ok(cands) = canonical_candidates(m) {
+        for (g2, k2) in issued.iter() {
+            if *g2 == guid {
+                continue;
+            }
+            if let Some(kb) = crypto::unhex(k2) {
+                for (_, c) in cands.iter() {
+                    if crypto::hex(&crypto::hmac_sha256(&kb, c)) == mac.to_lowercase() {
+                        return SigCheck::Invalid { guid, why: format!("key id and MAC name different keys: the MAC was computed under key {}", g2) };
+                    }
+                }
+            }
+        }
+    }
     SigCheck::Invalid { guid, why: "MAC does not match the canonical string of the received request".into() }
 }
 
